@@ -4,7 +4,7 @@ from .. import core, epcheck, epflow, facflow, gen, oracles
 from ..check import load_known
 
 THEOREMS = ["C13_rer_def", "C13_primary_energy_nonneg", "C13_rer_range", "C13_nrb_le_rer", "C13_onst_nonneg",
-            "C13_nested_partial", "C13_rer_zero_total", "C13_nested_refuted", "C13_nearby_negative_refuted"]
+            "C13_nested_partial", "C13_nested_nearby_cogeneration", "C13_rer_zero_total", "C13_nested_refuted", "C13_nearby_negative_refuted"]
 CONE = re.compile(r"^(rer|balance/we/b/|balance_cr/[A-Z0-9]+/we/(b|del_onst|del_cgn|exp_a)/)")
 
 KNOWN = {f["class"]: "%s [%s]" % (f["what"], f["id"]) for f in load_known().get("findings", []) if f.get("property") == "C13"}
@@ -87,4 +87,4 @@ def run(tier, seed):
                        case_gen=gen_cases_c13,
                        level_note="range, definition, RER_nrb <= RER and RER_onst >= 0 proved for all buildings (incl. the "
                                   "cross-carrier cogeneration argument); full nesting proved for buildings that export no "
-                                  "electricity; known findings: exported on-site electricity (C13_nested_refuted), exported cogenerated electricity from a fuel outside the nearby perimeter (C13_nearby_negative_refuted)")
+                                  "electricity, and for buildings that export only cogenerated electricity from nearby fuels (C13_nested_nearby_cogeneration); known findings: exported on-site electricity (C13_nested_refuted), exported cogenerated electricity from a fuel outside the nearby perimeter (C13_nearby_negative_refuted)")
